@@ -281,11 +281,37 @@ Definition set_ingress (s : nstate) hda dda hst dst crashed : nstate :=
      n_hseen := n_hseen s; n_dseen := n_dseen s; n_hda := hda; n_dda := dda; n_applied := n_applied s;
      n_hstore := hst; n_dstore := dst; n_halted := n_halted s; n_crashed := crashed |}.
 
+(* ---- the read of one DA height: types/da.go RetrieveWithHelpers (:101-186), success path ---------- *)
+(* GetIDs lists the ids of the height (:110); they are requested in consecutive batches of batchSize ids
+   (:156-159, one da.Get per batch) and the answers are appended in order (:174); the result carries the
+   appended blobs (:184).  No ids at all = StatusNotFound (:145): nothing to process.  The error paths of
+   GetIDs/Get are property C09's subject (Model/Retriever.v: the same chunking, over blob classes). *)
+Definition batch_size : nat := 100.                                  (* types/da.go:156 *)
+Fixpoint chunks_from {A} (fuel : nat) (l : list A) : list (list A) :=   (* :158-159; fuel = length *)
+  match fuel with
+  | O => []
+  | S f => match l with
+           | [] => []
+           | _ => firstn batch_size l :: chunks_from f (skipn batch_size l)
+           end
+  end.
+Definition chunks {A} (l : list A) : list (list A) := chunks_from (length l) l.
+Definition fetched {A} (l : list A) : list A := concat (chunks l).   (* :174 blobs = append(blobs, batchBlobs...) *)
+(* the da.Get calls of one height as the DA layer sees them: (index of the first id, number of ids) *)
+Fixpoint get_calls_from {A} (off : N) (cs : list (list A)) : list (N * N) :=
+  match cs with
+  | [] => []
+  | c :: r => (off, N.of_nat (length c)) :: get_calls_from (off + N.of_nat (length c)) r
+  end.
+Definition get_calls {A} (l : list A) : list (N * N) := get_calls_from 0 (chunks l).
+
 (* traffic *)
 Inductive item :=
 | IInitH (sh : sheader)            (* header store initialised with the trusted first header (sync_service.go:121-129) *)
 | IInitD (d : data)
 | IDA (b : blob)                   (* one blob read by the RetrieveLoop *)
+| IDAHeight (bl : list blob)       (* a whole DA height: every blob the DA layer holds there, in id order, read by one
+                                      processNextDAHeaderAndData call through RetrieveWithHelpers *)
 | IGossipH (sh : sheader)          (* header gossip / header served by a peer *)
 | IGossipD (d : data) (linked : bool).
 
@@ -293,8 +319,37 @@ Inductive item :=
 Definition forward_header (g : genesis) (tb : exec_tbl) (s : nstate) (sh : sheader) : nstate :=
   if is_expected_sequencer g sh then sync_header tb s sh else s.
 
+(* the body of processNextDAHeaderAndData's loop for one blob (block/retriever.go:83-92), followed by the
+   syncer's handling of the events it sent.  Outcome code: 0 nothing, 1 handled-and-skipped (DA header),
+   2 admitted (a DA-included mark was set), 3 panic *)
+Definition da_blob_step (g : genesis) (tb : exec_tbl) (s : nstate) (b : blob) : nstate * N :=
+  let o := da_admit g (n_hseen s) (n_dseen s) b in
+  let s1 := set_ingress s (match o_hmark o with Some h => h :: n_hda s | None => n_hda s end)
+                          (match o_dmark o with Some c => c :: n_dda s | None => n_dda s end)
+                          (n_hstore s) (n_dstore s) (o_panic o) in
+  let s2 := match o_hevent o with Some sh => sync_header tb s1 sh | None => s1 end in
+  let s3 := match o_devent o with Some d => sync_data tb s2 d | None => s2 end in
+  (s3, if o_panic o then 3%N
+       else match o_hmark o, o_dmark o with
+            | None, None => if o_handled o then 1%N else 0%N
+            | _, _ => 2%N
+            end).
+
+(* retriever.go:83-92 over the blobs RetrieveWithHelpers returned; second component = how many of them
+   were admitted (got a DA-included mark).  A panic ends the goroutine. *)
+Fixpoint da_blobs_run (g : genesis) (tb : exec_tbl) (s : nstate) (bl : list blob) : nstate * N :=
+  match bl with
+  | [] => (s, 0%N)
+  | b :: r =>
+      if n_crashed s then (s, 0%N)
+      else let '(s1, o) := da_blob_step g tb s b in
+           let '(s2, k) := da_blobs_run g tb s1 r in
+           (s2, ((if (o =? 2)%N then 1 else 0) + k)%N)
+  end.
+
 (* one traffic item, followed by the ticks of the store loops.  Outcome code (what the harness observes):
-   0 nothing, 1 handled-and-skipped (DA header), 2 admitted, 3 panic *)
+   0 nothing, 1 handled-and-skipped (DA header), 2 admitted, 3 panic; for a whole DA height: 10 + the number
+   of its blobs that were admitted *)
 Definition node_step (g : genesis) (now : Z) (tb : exec_tbl) (s : nstate) (i : item) : nstate * N :=
   if n_crashed s then (s, 0%N)
   else
@@ -309,18 +364,9 @@ Definition node_step (g : genesis) (now : Z) (tb : exec_tbl) (s : nstate) (i : i
       | [] => (sync_data tb (set_ingress s (n_hda s) (n_dda s) (n_hstore s) [d] false) d, 2%N)   (* store.go:84-99: no filter *)
       | _ => (s, 0%N)
       end
-  | IDA b =>
-      let o := da_admit g (n_hseen s) (n_dseen s) b in
-      let s1 := set_ingress s (match o_hmark o with Some h => h :: n_hda s | None => n_hda s end)
-                              (match o_dmark o with Some c => c :: n_dda s | None => n_dda s end)
-                              (n_hstore s) (n_dstore s) (o_panic o) in
-      let s2 := match o_hevent o with Some sh => sync_header tb s1 sh | None => s1 end in
-      let s3 := match o_devent o with Some d => sync_data tb s2 d | None => s2 end in
-      (s3, if o_panic o then 3%N
-           else match o_hmark o, o_dmark o with
-                | None, None => if o_handled o then 1%N else 0%N
-                | _, _ => 2%N
-                end)
+  | IDA b => da_blob_step g tb s b
+  | IDAHeight bl =>                                                   (* retriever.go:73-93 *)
+      let '(s1, k) := da_blobs_run g tb s (fetched bl) in (s1, (10 + k)%N)
   | IGossipH u =>
       if hstore_accepts now (n_hstore s) u
       then (forward_header g tb (set_ingress s (n_hda s) (n_dda s) (u :: n_hstore s) (n_dstore s) false) u, 2%N)
@@ -374,26 +420,31 @@ Definition names_proposer (pk : key) (a : addr) : bool := addr_eqb a (Addr pk).
 
 (* an item built without the proposer's private key: it does not carry [Sig pk <its own content>].
    P2P data carries no signature at all, so every P2P data item qualifies. *)
+Definition blob_adversarial (pk : key) (b : blob) : bool :=
+  match b with
+  | BHdr sh => negb (signed_by pk sh)
+  | BData sd => negb (data_signed_by pk sd)
+  | _ => true
+  end.
 Definition adversarial (pk : key) (i : item) : bool :=
   match i with
   | IInitH _ | IInitD _ => false
-  | IDA (BHdr sh) => negb (signed_by pk sh)
-  | IDA (BData sd) => negb (data_signed_by pk sd)
-  | IDA _ => true
+  | IDA b => blob_adversarial pk b
+  | IDAHeight bl => forallb (blob_adversarial pk) bl      (* a DA height holding third-party material only *)
   | IGossipH u => negb (signed_by pk u)
   | IGossipD _ _ => true
   end.
 
 (* adversarial traffic on the DA layer: any blobs whatsoever that are not signed by the proposer *)
 Definition da_adversarial (pk : key) (i : item) : bool :=
-  match i with IDA _ => adversarial pk i | _ => false end.
+  match i with IDA _ | IDAHeight _ => adversarial pk i | _ => false end.
 
 (* adversarial traffic that today's checks do stop: everything on the DA layer; header gossip that does not
    name the proposer; data gossip that does not hash-link to the data head *)
 Definition harmless (pk : key) (i : item) : bool :=
   match i with
   | IInitH _ | IInitD _ => false
-  | IDA _ => adversarial pk i
+  | IDA _ | IDAHeight _ => adversarial pk i
   | IGossipH u => negb (names_proposer pk (h_proposer (sh_hdr u)))
   | IGossipD _ linked => negb linked
   end.
@@ -409,3 +460,11 @@ Inductive interleave {A : Type} : list A -> list A -> list A -> Prop :=
 | il_nil : interleave [] [] []
 | il_l : forall x g a m, interleave g a m -> interleave (x :: g) a (x :: m)
 | il_r : forall x g a m, interleave g a m -> interleave g (x :: a) (x :: m).
+
+(* a DA height seen as the sequence of its blobs *)
+Fixpoint expand (l : list item) : list item :=
+  match l with
+  | [] => []
+  | IDAHeight bl :: r => map IDA bl ++ expand r
+  | i :: r => i :: expand r
+  end.
